@@ -5,6 +5,7 @@ import (
 	"go/ast"
 	"go/token"
 	"go/types"
+	"strconv"
 )
 
 // TypeConverter handles conversion of types.Type to ast.Expr with proper package qualifiers.
@@ -199,6 +200,39 @@ func (tc *TypeConverter) TypeToExpr(t types.Type) ast.Expr {
 			Dir:   dir,
 			Value: tc.TypeToExpr(typ.Elem()),
 		}
+	case *types.Signature:
+		params := &ast.FieldList{}
+		for i := range typ.Params().Len() {
+			paramType := typ.Params().At(i).Type()
+			var paramExpr ast.Expr
+			if slice, ok := paramType.(*types.Slice); ok && typ.Variadic() && i == typ.Params().Len()-1 {
+				paramExpr = &ast.Ellipsis{Elt: tc.TypeToExpr(slice.Elem())}
+			} else {
+				paramExpr = tc.TypeToExpr(paramType)
+			}
+			params.List = append(params.List, &ast.Field{Type: paramExpr})
+		}
+		funcType := &ast.FuncType{Params: params}
+		if typ.Results().Len() > 0 {
+			funcType.Results = &ast.FieldList{}
+			for i := range typ.Results().Len() {
+				funcType.Results.List = append(funcType.Results.List, &ast.Field{Type: tc.TypeToExpr(typ.Results().At(i).Type())})
+			}
+		}
+		return funcType
+	case *types.Struct:
+		fields := &ast.FieldList{}
+		for i := range typ.NumFields() {
+			field := &ast.Field{Type: tc.TypeToExpr(typ.Field(i).Type())}
+			if !typ.Field(i).Embedded() {
+				field.Names = []*ast.Ident{ast.NewIdent(typ.Field(i).Name())}
+			}
+			if tag := typ.Tag(i); tag != "" {
+				field.Tag = &ast.BasicLit{Kind: token.STRING, Value: strconv.Quote(tag)}
+			}
+			fields.List = append(fields.List, field)
+		}
+		return &ast.StructType{Fields: fields}
 	default:
 		return ast.NewIdent(t.String())
 	}
